@@ -458,6 +458,19 @@ class BuiltinMixin:
         it = self.make_iter(args[0], st)
         yield self.iter_value(Iter(it.length, lambda i, s: it.get(z3.simplify(it.length - 1 - i), s), "reversed")), st
 
+    def bi_loop_last(self, args, kwargs, st):
+        """rich._loop.loop_last: (is_last, value) pairs (trusted helper contract; its body is a generator)"""
+        from .exec_call import Iter
+
+        it = self.make_iter(args[0], st)
+        yield self.iter_value(Iter(it.length, lambda i, s: VTuple([V(BOOL, z3.simplify(i == it.length - 1)), it.get(i, s)]), "loop_last")), st
+
+    def bi_loop_first(self, args, kwargs, st):
+        from .exec_call import Iter
+
+        it = self.make_iter(args[0], st)
+        yield self.iter_value(Iter(it.length, lambda i, s: VTuple([V(BOOL, z3.simplify(i == 0)), it.get(i, s)]), "loop_first")), st
+
     def bi_iter(self, args, kwargs, st):
         it = self.make_iter(args[0], st)
         r = new_ref()
@@ -662,15 +675,44 @@ class BuiltinMixin:
             return
         raise Unsupported(f"str.{name} on a symbolic string")
 
+    def join_measures(self, sep: VSeq, parts: VSeq, st):
+        """(length, cells) of sep.join(parts) computed piece by piece over the rope of parts: prefix-sum
+        functions joinlen / joincells over arrays of strings for views, direct sums for literal pieces"""
+        sdt = self.U.z3sort(STR)
+        arrsort = z3.ArraySort(z3.IntSort(), sdt)
+        jl = z3.Function("joinlen", arrsort, z3.IntSort(), z3.IntSort())
+        jc = z3.Function("joincells", arrsort, z3.IntSort(), z3.IntSort())
+        if not getattr(self, "_join_axioms", False):
+            self._join_axioms = True
+            a = z3.Const("a!jl", arrsort)
+            i, j = z3.Int("i!jl"), z3.Int("j!jl")
+            cell_of = lambda t: seqs.pcell(sdt.arr(t), sdt.len(t)) - seqs.pcell(sdt.arr(t), 0)
+            self.global_facts.append(z3.ForAll([a, i], z3.And(jl(a, i + 1) == jl(a, i) + sdt.len(a[i]), jc(a, i + 1) == jc(a, i) + cell_of(a[i])), patterns=[a[i]]))
+        ln, ce = z3.IntVal(0), z3.IntVal(0)
+        for p in parts.pieces:
+            if p.kind == "view":
+                ln = ln + jl(p.a, p.hi) - jl(p.a, p.lo)
+                ce = ce + jc(p.a, p.hi) - jc(p.a, p.lo)
+            else:
+                items = p.items if p.kind in ("lit", "reps") else [p.a]
+                mult = z3.IntVal(1) if p.kind == "lit" else p.hi
+                for it in items:
+                    ln = ln + mult * sdt.len(it)
+                    ce = ce + mult * (seqs.pcell(sdt.arr(it), sdt.len(it)) - seqs.pcell(sdt.arr(it), 0))
+        n = parts.length()
+        ln = ln + z3.If(n > 0, (n - 1) * sep.length(), 0)
+        ce = ce + z3.If(n > 0, (n - 1) * seqs.cells(sep, []), 0)
+        return z3.simplify(ln), z3.simplify(ce)
+
     def join_fold(self, sep: VSeq, parts: VSeq, st):
         """"sep".join(parts) for a list of strings: a deterministic uninterpreted function of the list
-        (array, bounds) with its length and cell width given by prefix sums over the parts; a one-element
-        list joins to that element (trusted built-in contract of str.join)."""
-        n = parts.length()
+        (array, bounds) whose length and cell width are the sums over the parts; a one-element list joins to
+        that element (trusted built-in contract of str.join)."""
         sdt = self.U.z3sort(STR)
         lsep = seqs.lit_value(sep)
         if lsep is None:
             raise Unsupported("join with a symbolic separator")
+        total_len, total_cells = self.join_measures(sep, parts, st)
         facts: list = []
         arr, ln = seqs.materialize(parts, facts, sdt)
         for f in facts:
@@ -680,8 +722,6 @@ class BuiltinMixin:
             arr, lo, ln = parts.pieces[0].a, parts.pieces[0].lo, parts.pieces[0].hi
         tag = lsep.encode("utf-8").hex() or "empty"
         jf = z3.Function(f"joinstr_{tag}", arr.sort(), z3.IntSort(), z3.IntSort(), sdt)
-        jl = z3.Function("joinlen", arr.sort(), z3.IntSort(), z3.IntSort())
-        jc = z3.Function("joincells", arr.sort(), z3.IntSort(), z3.IntSort())
         t = jf(arr, lo, ln)
         res = self.from_term(t, STR, st)
         marker = z3.Bool("joinfacts!" + str(z3.simplify(t).get_id()))
@@ -689,9 +729,8 @@ class BuiltinMixin:
             return res
         st.pc.append(marker)
         cnt = z3.simplify(ln - lo)
-        seplen = sep.length()
-        st.assume(res.length() == jl(arr, ln) - jl(arr, lo) + z3.If(cnt > 0, (cnt - 1) * seplen, 0))
-        st.assume(seqs.cells(res, []) == jc(arr, ln) - jc(arr, lo) + z3.If(cnt > 0, (cnt - 1) * seqs.cells(sep, []), 0))
+        st.assume(res.length() == total_len)
+        st.assume(seqs.cells(res, []) == total_cells)
         k = z3.Int(fresh_name("jk"))
         e0 = arr[lo]
         st.assume(z3.Implies(cnt == 1, z3.And(sdt.len(t) == sdt.len(e0),
@@ -701,10 +740,17 @@ class BuiltinMixin:
         st.assume(z3.Implies(cnt == 1, seqs.pcell(sdt.arr(t), sdt.len(t)) - seqs.pcell(sdt.arr(t), 0)
                              == seqs.pcell(sdt.arr(e0), sdt.len(e0)) - seqs.pcell(sdt.arr(e0), 0)))
         st.assume(z3.Implies(cnt <= 0, sdt.len(t) == 0))
-        # unfolding of the length sum at the ends (enough for append / single-piece reasoning)
-        st.assume(z3.Implies(cnt >= 1, jl(arr, ln) == jl(arr, ln - 1) + sdt.len(arr[ln - 1])))
-        st.assume(z3.Implies(cnt >= 1, jl(arr, lo + 1) == jl(arr, lo) + sdt.len(arr[lo])))
         return res
+
+    def bi_joinlen(self, args, kwargs, st):
+        """spec: len("".join(list of str))"""
+        parts = self.as_seq(args[0], st, "joinlen()")
+        yield V(INT, self.from_mathint(self.join_measures(seqs.lit_str(""), parts, st)[0])), st
+
+    def bi_joincells(self, args, kwargs, st):
+        """spec: cells("".join(list of str))"""
+        parts = self.as_seq(args[0], st, "joincells()")
+        yield V(INT, self.from_mathint(self.join_measures(seqs.lit_str(""), parts, st)[1])), st
 
     def bi_joined(self, args, kwargs, st):
         """spec: "".join(list of str) — the same function the code's join denotes"""
